@@ -157,13 +157,33 @@ def _stack_build(case):
     return root, stacks
 
 
-def _stack_query(case, root, stacks):
+PATHS = ("cache", "db")      # the two branches of _findLatestProduct / _findProductsByExpr
+
+
+def _stack_query(case, root, stacks, path):
+    """All lookups of one case through one branch, in a fresh process (first Eups of the process).
+    path 'cache': Eups() — the product cache is read and used;  path 'db': Eups(readCache=False), what
+    `setup` does — every lookup goes to the database files (Database.findProducts, sorted as strings)."""
     os.environ["EUPS_PATH"] = ":".join(stacks)
-    os.environ["EUPS_USERDATA"] = os.path.join(root, "userdataA")
+    ud = os.path.join(root, "userdataA")
+    os.environ["EUPS_USERDATA"] = ud
+    if path == "db":
+        # Eups(readCache=False) looks the default product up in __init__; a name of None raises TypeError there
+        sp = os.path.join(ud, "startup.py")
+        with open(sp) as f:
+            txt = f.read()
+        with open(sp, "w") as f:
+            f.write(txt.replace('defaultProduct["name"] = None', 'defaultProduct["name"] = ""'))
     from eups import utils
     utils.stdwarn = io.StringIO()
-    e = common.new_eups()
-    cached = all(bool(e.versions.get(st)) for st, vers in zip(stacks, case["stacks"]) if vers)
+    e = common.new_eups(readCache=(path == "cache"))
+    holds = [bool(e.versions.get(st)) for st, vers in zip(stacks, case["stacks"]) if vers]
+    used = "cache" if (holds and all(holds)) else ("db" if not any(holds) else "mixed")
+    tag_latest = e.tags.getTag("latest")
+    no_cache = (path == "db")
+
+    def ref(p):
+        return None if p is None else [stacks.index(p.stackRoot()), p.version]
 
     def guarded(f):
         try:
@@ -176,35 +196,53 @@ def _stack_query(case, root, stacks):
         except Exception as ex:  # noqa
             return {"err": "E:" + type(ex).__name__}
 
-    def latest():
-        p = e.findTaggedProduct("prod", "latest")
-        return None if p is None else [stacks.index(p.stackRoot()), p.version]
-
-    def matches():
-        ps = e._findProductsByExpr("prod", case["expr"], e.path, e.flavor, False)
-        return sorted([stacks.index(p.stackRoot()), p.version] for p in ps)
-
-    out = {"latest": guarded(latest), "matches": guarded(matches), "cached": cached}
+    expr = case["expr"]
+    relational = bool(e._relop_re.search(expr)) and not e._bad_relop_re.match(expr)
+    out = {"branch": used,
+           "latest": {
+               "findTaggedProduct": guarded(lambda: ref(e.findTaggedProduct("prod", "latest"))),
+               "findProduct(Tag)": guarded(lambda: ref(e.findProduct("prod", tag_latest))),
+               "findProductFromVRO": guarded(lambda: ref(e.findProductFromVRO("prod", vro=["latest"])[0]))},
+           "latest_min": guarded(lambda: ref(e._findLatestProduct("prod", e.path, e.flavor, minver=case.get("minver") or None,
+                                                                  noCache=no_cache))),
+           "matches": guarded(lambda: sorted(ref(p) for p in e._findProductsByExpr("prod", expr, e.path, e.flavor, no_cache))),
+           # the latest of the matching versions: what `setup prod "expr"` does (VRO element versionExpr); an expression
+           # without an operator is not a version expression for that entry point, so the two steps are called directly
+           "preferred": guarded((lambda: ref(e.findProductFromVRO("prod", version=expr, vro=["versionExpr"], noCache=no_cache)[0]))
+                                if relational else
+                                (lambda: ref(e._selectPreferredProduct(
+                                    e._findProductsByExpr("prod", expr, e.path, e.flavor, no_cache), ["latest"]))))}
     allv = [v for st in case["stacks"] for v in st]
-    if isinstance(out["latest"], list):
-        out["cmp_to_latest"] = "".join(impl_cmp(v, out["latest"][1], False) for v in allv)
+    # the implementation's own order, for oracle (ii)
+    refs = set()
+    for r in list(out["latest"].values()) + [out["latest_min"], out["preferred"]]:
+        if isinstance(r, list):
+            refs.add(r[1])
+    out["cmp_to"] = {r: "".join(impl_cmp(v, r, False) for v in allv) for r in refs}
+    if case.get("minver"):
+        out["cmp_to_minver"] = "".join(impl_cmp(v, case["minver"], False) for v in allv)
     out["terms"] = {v: [impl_cmp(v, tv, True) for _, tv in case["terms"]] for v in allv}
     return out
 
 
 def impl_stack(case):
-    """One child builds the stacks (declare), a fresh one answers the queries (first Eups of its process)."""
+    """One child builds the stacks (declare); a fresh child per branch answers the lookups."""
     r = common.in_child(_stack_build, case)
     if r[0] != "ok":
         raise common.InfraError("building the stacks failed: %r" % (r,))
     root, stacks = r[1]
+    res = {}
     try:
-        q = common.in_child(_stack_query, case, root, stacks)
+        for path in PATHS:
+            if path == "cache" and case.get("ties"):
+                continue          # the cache enumerates a stack's versions in dictionary order: not modelled for ties inside a stack
+            q = common.in_child(_stack_query, case, root, stacks, path)
+            if q[0] != "ok":
+                raise common.InfraError("querying the stacks (%s) failed: %r" % (path, q,))
+            res[path] = q[1]
     finally:
         common.rmtree(root)
-    if q[0] != "ok":
-        raise common.InfraError("querying the stacks failed: %r" % (q,))
-    return q[1]
+    return res
 
 
 def impl_small(jobs):
@@ -417,7 +455,7 @@ def eval_small(ctx, cases):
         if c["kind"] == "match":
             reqs.append({"m": "c10", "op": "match", "v": c["v"], "expr": c["expr"]})
         elif c["kind"] == "stack":
-            reqs.append({"m": "c10", "op": "stacks", "stacks": c["stacks"], "expr": c["expr"]})
+            reqs.append({"m": "c10", "op": "stacksboth", "stacks": c["stacks"], "expr": c["expr"], "minver": c.get("minver") or ""})
         else:
             reqs.append({"m": "c10", "op": "latest", "names": c["names"]})
     answers = ctx.lean.ask_many(reqs)
@@ -475,41 +513,96 @@ def eval_small(ctx, cases):
                 ctx.fail("latest_no_crash", inp, io_cmp, mo, note="selection raised on conventional names")
 
 
+def canon_stack_model(ans):
+    return {"latest": ans["latest"], "latest_min": ans["latest_min"], "preferred": ans["preferred"],
+            "matches": sorted(ans["matches"]) if isinstance(ans["matches"], list) else ans["matches"]}
+
+
 def eval_stack(ctx, c, inp, io_, ans):
     allv = [v for st in c["stacks"] for v in st]
-    ctx.case(key=("s", c["stacks"], c["expr"]), nontrivial=len(set(allv)) > 1,
-             sample={"input": inp, "impl": io_} if ctx.evaluations % 997 == 3 else None)
+    ctx.case(key=("s", c["stacks"], c["expr"], c.get("minver")), nontrivial=len(set(allv)) > 1,
+             sample={"input": inp, "impl": {k: {x: v[x] for x in ("branch", "latest", "latest_min", "matches", "preferred")}
+                                            for k, v in io_.items()}} if ctx.evaluations % 997 == 3 else None)
     ctx.hist("stack/nstacks=%d" % len(c["stacks"]))
-    ctx.hist("stack/cache-used" if io_["cached"] else "stack/database-read")
-    mo = {"latest": ans["latest"], "matches": sorted(ans["matches"]) if isinstance(ans["matches"], list) else ans["matches"]}
-    ic = {"latest": io_["latest"], "matches": io_["matches"]}
-    if ic["latest"] != mo["latest"]:
-        ctx.disagree("latest_through_stacks", inp, ic, mo)
-    if ic["matches"] != mo["matches"]:
-        ctx.disagree("matches_through_stacks", inp, ic, mo)
-    # oracle (ii)
-    lat = io_["latest"]
-    if isinstance(lat, dict):
-        ctx.fail("latest_no_crash", inp, ic, mo, note="findTaggedProduct raised %s" % lat["err"])
-    elif (lat is None) != (not allv):
-        ctx.fail("latest_exists", inp, ic, mo, note="latest = %r for declared versions %r" % (lat, allv))
-    elif lat is not None:
-        if lat[1] not in c["stacks"][lat[0]]:
-            ctx.fail("latest_is_declared", inp, ic, mo, note="%r is not declared in stack %d" % (lat[1], lat[0]))
-        if any(ch not in "<=" for ch in io_["cmp_to_latest"]):
-            ctx.fail("latest_is_max", inp, ic, mo, note="cmp(x, latest) over the declared versions = %s" % io_["cmp_to_latest"])
-    if c.get("pure") and isinstance(io_["matches"], list):
-        got = set(v for _, v in io_["matches"])
-        for v in dict.fromkeys(allv):
-            ex = expected_match(c, {"terms": io_["terms"][v]})
-            if ex is not None:
+    if sorted(allv) != sorted(allv, key=lambda v: [int(t) if t.isdigit() else t for t in __import__("re").split(r"(\d+)", v)]):
+        ctx.hist("stack/string-order-differs-from-numeric-order")
+    for path, out in io_.items():
+        if out["branch"] != path and allv:
+            raise common.InfraError("the %s lookups of %r went through the %s branch" % (path, c["stacks"], out["branch"]))
+        ctx.hist("stack/branch=" + path)
+        mo = canon_stack_model(ans[path])
+        ic = {"latest": out["latest"], "latest_min": out["latest_min"], "matches": out["matches"], "preferred": out["preferred"]}
+        mo_cmp = dict(mo, latest={k: mo["latest"] for k in out["latest"]})
+        pinp = dict(inp, path=path)
+        for api, got in out["latest"].items():
+            if got != mo["latest"]:
+                ctx.disagree("latest_through_stacks/%s/%s" % (path, api), pinp, ic, mo_cmp)
+        for obs in ("latest_min", "matches", "preferred"):
+            if ic[obs] != mo[obs]:
+                ctx.disagree("%s_through_stacks/%s" % (obs, path), pinp, ic, mo_cmp)
+
+        # ---- oracle (ii): from the implementation's own comparisons
+        def fail(clause, note):
+            ctx.fail(clause, pinp, ic, mo_cmp, note="[%s branch] %s" % (path, note))
+
+        def check_max(clause, r, among, what):
+            """r = [stack, version] must be declared there and not exceeded by any version of `among` (indices into allv)."""
+            if r[1] not in c["stacks"][r[0]]:
+                fail(clause, "%s: %r is not declared in stack %d" % (what, r[1], r[0]))
+                return
+            codes = out["cmp_to"][r[1]]
+            bad = [allv[i] for i in among if codes[i] not in "<="]
+            if bad:
+                fail(clause, "%s = %r but %r compare(s) later" % (what, r[1], bad[:3]))
+
+        everything = range(len(allv))
+        for api, lat in out["latest"].items():
+            if isinstance(lat, dict):
+                fail("latest_no_crash", "%s raised %s" % (api, lat["err"]))
+            elif (lat is None) != (not allv):
+                fail("latest_exists", "%s = %r for declared versions %r" % (api, lat, allv))
+            elif lat is not None:
+                check_max("latest_is_max", lat, everything, api)
+        lm = out["latest_min"]
+        if c.get("minver") and not isinstance(lm, dict):
+            ctx.hist("stack/minver:" + ("none" if lm is None else "some"))
+            tomin = out["cmp_to_minver"]
+            if all(ch in "<=>" for ch in tomin):
+                reach = [i for i in everything if tomin[i] in ">="]
+                if lm is None:
+                    if reach:
+                        fail("latest_minver", "nothing returned although %r reach the minimum %r" % ([allv[i] for i in reach][:3], c["minver"]))
+                else:
+                    check_max("latest_minver", lm, everything, "_findLatestProduct(minver=%r)" % c["minver"])
+                    if tomin[allv.index(lm[1])] not in ">=":
+                        fail("latest_minver", "%r is below the minimum %r" % (lm[1], c["minver"]))
+        matched = None
+        if c.get("pure") and isinstance(out["matches"], list):
+            got = set(v for _, v in out["matches"])
+            decided = True
+            for v in dict.fromkeys(allv):
+                ex = expected_match(c, {"terms": out["terms"][v]})
+                if ex is None:
+                    decided = False
+                    continue
                 ctx.hist("stack/oracle:" + ex[0])
                 if (v in got) != (ex[1] == "match"):
-                    ctx.fail(ex[0] + "_through_stacks", inp, ic, mo,
-                             note="version %r compares %s with the terms; expected %s" % (v, io_["terms"][v], ex[1]))
-        for i, v in io_["matches"]:
-            if v not in c["stacks"][i] or any(v in st for st in c["stacks"][:i]):
-                ctx.fail("matches_first_stack", inp, ic, mo, note="%r reported from stack %d" % (v, i))
+                    fail(ex[0] + "_through_stacks", "version %r compares %s with the terms; expected %s" % (v, out["terms"][v], ex[1]))
+            for i, v in out["matches"]:
+                if v not in c["stacks"][i] or any(v in st for st in c["stacks"][:i]):
+                    fail("matches_first_stack", "%r reported from stack %d" % (v, i))
+            if decided:
+                matched = got
+        pr = out["preferred"]
+        if matched is not None and not isinstance(pr, dict):
+            ctx.hist("stack/oracle:latest_of_matches")
+            if (pr is None) != (not matched):
+                fail("latest_of_matches_is_max", "latest of the matches = %r, matching versions %r" % (pr, sorted(matched)))
+            elif pr is not None:
+                if pr[1] not in matched:
+                    fail("latest_of_matches_is_max", "latest of the matches = %r does not match" % (pr,))
+                else:
+                    check_max("latest_of_matches_is_max", pr, [i for i in everything if allv[i] in matched], "latest of the matches")
 
 
 def spelling_key(d):
@@ -530,19 +623,31 @@ def gen_stacks(ctx, pool, n):
     for _ in range(n):
         grp = rng.choice(groups)
         base = rng.sample(grp, min(len(grp), 10))
+        if rng.random() < 0.5:
+            # versions whose order as strings is not their order as versions: 9 / 10, a release and its pre-release,
+            # a shorter name and a longer one
+            d = dict(rng.choice(base)[1])
+            for nums in (["9"], ["10"], ["9", "2"], ["10", "0"], ["2", "0"], ["1", "9"], ["1", "10"]):
+                for pre in (None, "rc2"):
+                    e = dict(d, nums=nums, seps=[rng.choice("._")] * (len(nums) - 1), pre=pre, post=None)
+                    if rng.random() < 0.45:
+                        base.append((L.render(e), e))
         if rng.random() < 0.6:        # respellings of the chosen versions: ties between stacks
             base += [(L.render(e), e) for _, d in base[:4] for e in L.neighbours(rng, d)[-2:]]
+        ties = rng.random() < 0.2     # ties inside a stack as well: database branch only
         stacks = []
-        for _s in range(rng.choice([1, 2, 2, 3])):
+        for _s in range(rng.choice([1, 1, 2, 2, 3])):
             st, keys = [], set()
-            for nme, d in rng.sample(base, min(len(base), rng.choice([0, 1, 2, 3, 4]))):
+            for nme, d in rng.sample(base, min(len(base), rng.choice([0, 1, 2, 3, 4, 5]))):
                 k = spelling_key(d)
-                if k not in keys and nme not in st:      # inside one stack no two versions are equal in the order
+                if (ties or k not in keys) and nme not in st:      # otherwise no two versions of a stack are equal in the order
                     keys.add(k)
                     st.append(nme)
             stacks.append(st)
         text, terms, pure = L.random_expr(rng, [nme for nme, _ in base], odd)
-        cases.append({"kind": "stack", "stacks": stacks, "expr": text, "terms": [list(t) for t in terms], "pure": pure})
+        minver = rng.choice([nme for nme, _ in base]) if rng.random() < 0.7 else ""
+        cases.append({"kind": "stack", "stacks": stacks, "expr": text, "terms": [list(t) for t in terms], "pure": pure,
+                      "minver": minver, "ties": ties})
     return cases
 
 
@@ -648,7 +753,8 @@ def run(ctx, sz=None):
         eval_small(ctx, gen_stacks(ctx, pool, sz["stacks"]))
     h = ctx.histogram
     if not ctx.out_of_time():
-        for k in ("stack/cache-used", "stack/oracle:match_iff_relation", "arbitrary/strict:U", "arbitrary/sort:<", "arbitrary/sort:M", "match/outcome=match", "match/outcome=nomatch",
+        for k in ("stack/branch=cache", "stack/branch=db", "stack/string-order-differs-from-numeric-order", "stack/minver:some",
+                  "stack/minver:none", "stack/oracle:latest_of_matches", "stack/oracle:match_iff_relation", "arbitrary/strict:U", "arbitrary/sort:<", "arbitrary/sort:M", "match/outcome=match", "match/outcome=nomatch",
                   "match/oracle:match_iff_relation", "wide/sort:=", "g1404/sort:<"):
             if not h.get(k):
                 raise common.InfraError("degenerate distribution: nothing counted under %r" % k)
@@ -731,5 +837,6 @@ def replay(ctx, rp):
     mo = (dis[0]["model_output"] if dis else (sub_ctx.failures[0]["model_output"] if sub_ctx.failures else None))
     if io_ is None:
         out = impl_small_forked([c], 1)[0]
-        io_ = mo = out.get("r", {k: out[k] for k in ("idx", "err", "latest", "matches") if k in out})
+        io_ = mo = out.get("r", {k: out[k] for k in ("idx", "err", "cache", "db") if k in out}) if "r" in out or "idx" in out or "err" in out else \
+            {k: {x: v[x] for x in ("latest", "latest_min", "matches", "preferred")} for k, v in out.items()}
     return {"input": c, "impl_output": io_, "model_output": mo, "agree": not dis, "fails": fails}
